@@ -183,9 +183,13 @@ pub fn c06(ctx: &Ctx) -> PropResult {
     }
     // the converse clause inside brackets: a newline after an identifier, a literal or a closing bracket ends the
     // statement there as well (so the program is rejected exactly like the one with an explicit `;`)
-    for (a, b) in [("x <- [1, 2", "]"), ("x <- (1 + y", ")"), ("f(1", ", 2)"), ("x <- l[1", "]"), ("x <- [[1]", ", 2]"), ("x <- (\"s\"", ")"), ("f(g(1)", ")")] {
-        let nl = format!("y <- 1\n{a}\n{b}\n");
-        let semi = format!("y <- 1\n{a};{b}\n");
+    for (a, b) in [("x <- [1, 2", "]"), ("x <- (1 + y", ")"), ("f(1", ", 2)"), ("x <- l[1", "]"), ("x <- [[1]", ", 2]"), ("x <- (\"s\"", ")"), ("f(g(1)", ")"),
+        // a construct cannot continue on the next line after a token that ends a statement
+        ("IF (TRUE) {\nDISPLAY(1)\n}", "ELSE {\nDISPLAY(2)\n}"), ("IF (FALSE) {\n}", "ELSE IF (TRUE) {\nDISPLAY(3)\n}"), ("REPEAT 2", "TIMES {\nDISPLAY(4)\n}"), ("FOR EACH x", "IN [1] {\nDISPLAY(x)\n}"),
+        ("IMPORT \"SIN\"", "FROM MOD \"MATH\""), ("x <- 5", "+ 1"), ("x <- 5", "- 1"), ("x <- f", "(1)"), ("x <- l", "[1]"), ("PROCEDURE g()", "{\n}"), ("IF (TRUE)", "{\nDISPLAY(5)\n}"),
+        ("REPEAT UNTIL (TRUE)", "{\n}"), ("x <- TRUE", "AND FALSE"), ("x <- y", "<- 3"), ("RETURN", "5"), ("x <- NOT TRUE", "OR TRUE")] {
+        let nl = format!("y <- 1\nl <- [1, 2]\nPROCEDURE f(q) {{\nRETURN q\n}}\n{a}\n{b}\nDISPLAY(\"end\")\n");
+        let semi = format!("y <- 1\nl <- [1, 2]\nPROCEDURE f(q) {{\nRETURN q\n}}\n{a};{b}\nDISPLAY(\"end\")\n");
         cases.push(Case::new(Kind::Run, nl).tag("newline-ends-statement").aux(semi));
     }
     // behavioural form of the converse clause: a statement after a bare RETURN / BREAK / CONTINUE + newline is a
